@@ -838,6 +838,17 @@ def run_variant(pkg, case, variant, calls, inside=0, keep=None):
     out = dict(src=case.render(variant, keep), decor=None, trace=[], msgs=[], mod=None, ns=None)
     with warnings.catch_warnings():
         warnings.simplefilter('ignore')
+        if getattr(case, 'preload', False):
+            # the same source was imported once before (a reload, a second copy of the module) and a third party
+            # introspected its annotations with typing.get_type_hints(): typing memoises subscriptions process-wide,
+            # so the ForwardRef objects inside Optional['X'] / List['X'] are shared with the copy under test and now
+            # carry the *other* copy's classes
+            try:
+                pre = pkg.load(out['src'], variant + 'pre')
+                import typing as _typing
+                _typing.get_type_hints(pre.get()['call'])
+            except Exception:   # noqa
+                pass
         try:
             mod = out['mod'] = pkg.load(out['src'], variant)
         except Exception as e:   # noqa
@@ -1006,6 +1017,7 @@ def diff_case(rng, idx, stream, forced=None):
     else:
         case = gen_case(rng, uid)
         fill_hints(rng, case)
+        case.preload = rng.random() < .3
     calls = gen_calls(rng, case)
     inside = 0
     if case.a:
